@@ -70,8 +70,31 @@ class _CpuGuard(BaseException):
     """Raised by the CPU-time guard; BaseException so that no `except Exception` in a solver stack swallows it."""
 
 
+_WARM = []
+
+
+def _warm_picos():
+    """One tiny picos/CVXOPT solve per process, outside any guard, so that the guard never measures one-off solver set-up."""
+    if _WARM:
+        return
+    _WARM.append(True)
+    try:
+        import picos
+
+        pr = picos.Problem()
+        x = picos.HermitianVariable("x", (2, 2))
+        pr.add_constraint(x >> 0)
+        pr.add_constraint(picos.trace(x) == 1)
+        pr.set_objective("max", (np.diag([1.0, 2.0]) | x).real)
+        pr.solve(solver="cvxopt")
+    except Exception:  # noqa: BLE001 - warm-up only
+        pass
+
+
 def guarded_call(cpu_s, fn, *a, **k):
     """call(fn) under a virtual (user CPU time) timer.  Returns (value, exc, timed_out)."""
+    _warm_picos()
+
     def handler(signum, frame):
         raise _CpuGuard()
     old = signal.signal(signal.SIGVTALRM, handler)
@@ -805,7 +828,7 @@ CLAUSES = [
            doc="BFS over call histories {hierarchy L1, L2, ppt primal, ppt dual}: the caller's states list / probs never change; value after a history = value from the initial state"),
     Clause("C12.hierarchy", hierarchy_cases, hierarchy_check, tol="scs(1e-3)", chunk=1, weight=1.5, probe=2,
            doc="level 1 inside the certified PPT bracket and = ppt_distinguishability; level 2 <= level 1, >= explicit LOCC value and >= certified separable (PPT on 2x2/2x3) value; dim forms None/int/list/ndarray"),
-    Clause("C12.ppt_primal_dual", primal_dual_cases, primal_dual_check, tol="ipm(1e-4)", chunk=1, weight=1.2, probe=2,
+    Clause("C12.ppt_primal_dual", primal_dual_cases, primal_dual_check, tol="ipm(1e-4)", chunk=1, weight=1.2, probe=1,
            doc="primal = dual, both inside the certified bracket; returned operators are a PPT POVM attaining the value; primal solver breakdowns are indeterminate"),
     Clause("C12.ppt_value", ppt_value_cases, ppt_value_check, tol="ipm(1e-4)", chunk=1, weight=0.6, probe=3,
            doc="dual form: locc <= value <= global optimum, value inside the certified PPT bracket, same for subsystems [0]/[1] and for ket / density-matrix forms"),
